@@ -309,6 +309,30 @@ def link_entities(ents):
     return out
 
 
+INST14 = '''
+#include "xtl/xdynamic_bitset.hpp"
+#include "xtl/xbasic_fixed_string.hpp"
+#include "xtl/xoptional_sequence.hpp"
+#include "xtl/xcomplex_sequence.hpp"
+#include "xtl/xcomplex.hpp"
+#include "xtl/xiterator_base.hpp"
+#include "xtl/xvariant.hpp"
+#include <cstdint>
+#include <string>
+template class xtl::xdynamic_bitset<std::uint64_t>;
+template class xtl::xdynamic_bitset<std::uint8_t>;
+template class xtl::xdynamic_bitset_base<xtl::xdynamic_bitset<std::uint64_t>>;
+template class xtl::xdynamic_bitset_base<xtl::xdynamic_bitset<std::uint8_t>>;
+template class xtl::xbasic_fixed_string<char, 16, xtl::buffer | xtl::store_size, xtl::string_policy::throwing_error>;
+template class xtl::xbasic_fixed_string<char, 16, xtl::buffer, xtl::string_policy::silent_error>;
+template class xtl::xoptional_vector<double>;
+template class xtl::xcomplex_vector<double>;
+template class xtl::xcomplex<double>;
+template class mpark::variant<int, std::string>;
+int use() { return 0; }
+'''
+
+
 def rule_link(rep, hs, lents):
     rep.rule("C19.link", "two TUs that include all headers and odr-use every non-template namespace-scope function "
                          "compile and link into one program (the program is never run)")
@@ -360,6 +384,35 @@ def rule_link(rep, hs, lents):
             for s in syms[:20] or ["link failed: " + err[:300]]:
                 rep.violates("C19.link", "all headers", s, detail="g++ link of two TUs including all headers fails: " + s)
         rep.unit("link witness: %d functions odr-used" % len(body))
+        # second witness: class templates explicitly instantiated under C++14, where a static constexpr data member that is odr-used
+        # (subscripted with a run-time index, bound to a reference) still needs a namespace-scope definition
+        with open(os.path.join(work, "inst14.cpp"), "w") as f:
+            f.write(INST14)
+        with open(os.path.join(work, "main14.cpp"), "w") as f:
+            f.write("int use();\nint main() { return use(); }\n")
+        base14 = ["g++", "-std=c++14", "-O0", "-w", "-I" + INC()] + cj.EXTRA_INC
+        rep.cmd(" ".join(base14) + " -c inst14.cpp main14.cpp && g++ inst14.o main14.o (explicit instantiations; link only, not executed)")
+        objs = []
+        failed = False
+        for nm in ("inst14", "main14"):
+            p = subprocess.run(base14 + ["-c", os.path.join(work, nm + ".cpp"), "-o", os.path.join(work, nm + ".o")], stdout=subprocess.PIPE, stderr=subprocess.PIPE)
+            if p.returncode != 0:
+                first = [l for l in p.stderr.decode("utf-8", "replace").splitlines() if "error" in l][:3]
+                (rep.violates if any(cj.REPO in l for l in first) else rep.inconclusive)("C19.link", "explicit instantiations (C++14)", "compile " + nm, detail=" | ".join(first)[:400])
+                failed = True
+                break
+            objs.append(os.path.join(work, nm + ".o"))
+        if not failed:
+            p = subprocess.run(["g++", "-o", os.path.join(work, "prog14")] + objs + ["-lpthread"], stdout=subprocess.PIPE, stderr=subprocess.PIPE)
+            err = p.stderr.decode("utf-8", "replace")
+            if p.returncode == 0:
+                rep.holds("C19.link", "explicit instantiations (C++14)", "link", scenario="g++ -std=c++14, %d class templates instantiated in full" % INST14.count("template class"))
+            else:
+                syms = sorted(set(re.findall(r"(multiple definition of `[^']+'|undefined reference to `[^']+')", err)))
+                for sy in syms[:20] or ["link failed: " + err[:300]]:
+                    rep.violates("C19.link", "explicit instantiations (C++14)", sy,
+                                 detail="g++ -std=c++14 cannot link a program that instantiates the class templates in full: %s (a static constexpr data member that is odr-used "
+                                        "needs an out-of-class definition before C++17)" % sy)
     finally:
         shutil.rmtree(work, ignore_errors=True)
 
